@@ -56,7 +56,8 @@ func asFloat(v any) (float64, string) {
 		// can we interpret it as a duration?
 		f, err := time.ParseDuration(v.(string))
 		if err == nil {
-			return float64(f.Milliseconds()), ""
+			// milliseconds, keeping the fraction: a sub-millisecond duration is not zero
+			return float64(f) / float64(time.Millisecond), ""
 		}
 		// can we interpret it as a memory size?
 		var m MemorySize
